@@ -197,6 +197,10 @@ def run_shard(pid: str, tier: str, seed: int, shard: int, nshards: int, out: str
     os.environ[GUARD] = "1"
     ctx = Ctx(pid, tier, seed, shard, nshards)
     ctx.deadline = time.time() + budget
+    if os.environ.get("VERIF_REACH"):  # opt-in: record which repository functions the workload enters (tools/reach_report.py)
+        from . import reach
+
+        reach.install(os.environ["VERIF_REACH"], os.path.realpath(repo_src()))
     try:
         mod = load_module(pid)
         mod.run(ctx)
